@@ -106,6 +106,8 @@ def run_on(fb, chk, tag=""):
         for b in loopb:
             for s in cfg.succ[b]:
                 if s not in loopb:
+                    if cl.blocks[s]["term"]["k"] == "unreachable" and not cl.blocks[s]["stmts"]:
+                        continue   # the `otherwise` arm of an exhaustive match on the result
                     atoms = cm.atoms_at(s)
                     if not any(a[0] == "notok" and "handle_request" in show(a[1]) for a in atoms):
                         exits_ok = False
